@@ -16,7 +16,12 @@
 (*               spans the two: store.go:242-262)                          *)
 (*   ClientApply the response reaches the client: wipeOnSeedChange, per    *)
 (*               presentation exists?/add (prune, setTimestamp, delete     *)
-(*               previous, insert), verifier, updateValidated              *)
+(*               previous, insert), verifier, updateValidated; the         *)
+(*               verifier may be UNAVAILABLE during one apply (DID         *)
+(*               resolution down): what is added stays unvalidated         *)
+(*   ClientValidate  clientRegistrationManager.validate: one background    *)
+(*               round over ALL not yet validated rows; exactly the ones   *)
+(*               that pass the client's verifier now are flagged           *)
 (* Search is a pure function of the client table (SearchResult).           *)
 (*                                                                         *)
 (* Tables are SETS OF ROWS as in SQL, so "one entry per subject" is a real *)
@@ -32,6 +37,10 @@ CONSTANTS
     CountDefects,         \* FALSE: a rejected submission leaves no trace at all (exhaustive checking);
                           \*   TRUE: it is counted, so that it shows up in generated behaviours
     MaxResets, MaxTicks,
+    MaxOutages,           \* bound on applies during which the client's verifier is unavailable
+    CredOrders,           \* orders in which a registration lists its credentials ("mf" member credential first,
+                          \*   "sf" the holder's own non-expiring registration credential first): the verdict of the
+                          \*   pipeline must not depend on it
     ExpClasses,           \* subset of {"short", "long"}: "short" expires at the Tick
     Kinds,                \* subset of {"reg", "ret"}
     Defects,              \* defect classes the environment may submit
@@ -40,6 +49,7 @@ CONSTANTS
     ReadTsFirst,          \* get(): service row (seed, timestamp) BEFORE the rows (as implemented: TRUE)
     SearchValidatedOnly,  \* search(): validated != 0                              (as implemented: TRUE)
     SearchUnexpiredOnly,  \* search(): skips expired rows                          (as implemented: TRUE)
+    ValidateMarksPassing, \* validate(): flags exactly the rows that passed         (as implemented: TRUE)
     RefetchOnSeedChange,  \* DEVIATION (as implemented FALSE): after a wipe the response fetched with the OLD
                           \*   timestamp is discarded and the client starts over from 0
     SupersedeMustOutlive, \* DEVIATION (as implemented FALSE): a presentation that expires before the one it
@@ -55,14 +65,14 @@ VARIABLES
     now,                  \* 0 before the Tick, 1 after
     epoch, seeded,        \* server incarnation; whether discovery_service.seed has been set (first add)
     ts, rows,             \* discovery_service.last_lamport_timestamp; discovery_presentation of the server
-    events, defects, resets,
+    events, defects, resets, outages,
     cseed, cts, crows,    \* the client's discovery_service row and discovery_presentation table
     poll,                 \* the poll in flight
     quiet, dirty,         \* history: consecutive completed polls without a server event; event during this poll
     hist
 
-vars == <<now, epoch, seeded, ts, rows, events, defects, resets, cseed, cts, crows, poll, quiet, dirty, hist>>
-view == <<now, epoch, seeded, ts, rows, events, defects, resets, cseed, cts, crows, poll, quiet, dirty>>
+vars == <<now, epoch, seeded, ts, rows, events, defects, resets, outages, cseed, cts, crows, poll, quiet, dirty, hist>>
+view == <<now, epoch, seeded, ts, rows, events, defects, resets, outages, cseed, cts, crows, poll, quiet, dirty>>
 
 Log(e) == hist' = IF Hist THEN Append(hist, e) ELSE hist
 
@@ -70,7 +80,7 @@ Idle == [phase |-> "idle", after |-> 0, rts |-> 0, rseed |-> 0, rows |-> {}]
 
 Init ==
     /\ now = 0 /\ epoch = 1 /\ seeded = FALSE /\ ts = 0 /\ rows = {}
-    /\ events = 0 /\ defects = 0 /\ resets = 0
+    /\ events = 0 /\ defects = 0 /\ resets = 0 /\ outages = 0
     /\ cseed = 0 /\ cts = 0 /\ crows = {}
     /\ poll = Idle /\ quiet = 0 /\ dirty = FALSE
     /\ hist = <<>>
@@ -84,7 +94,8 @@ SrvSeed == IF seeded THEN epoch ELSE 0
 Mine(s) == {r \in rows : r.s = s}
 
 \* which submissions the environment can construct in the current state
-Applies(s, kind, e, d) ==
+Applies(s, kind, e, d, o) ==
+    /\ o \in CredOrders /\ (kind = "ret" => o = "mf")      \* a retraction has no credentials
     /\ kind \in Kinds /\ e \in ExpClasses /\ d \in {"none"} \cup Defects
     /\ now >= 1 => e = "long"                          \* nothing expires after the (single) Tick
     /\ kind = "reg" => d \notin RetOnly
@@ -102,8 +113,8 @@ Touch == /\ quiet' = 0
          /\ dirty' = (poll.phase # "idle")
 
 \* acc: the verdict (Next: the pipeline's; trace validation: the one the real server gave)
-Submit(s, kind, e, d, acc) ==
-    /\ Applies(s, kind, e, d)
+Submit(s, kind, e, d, o, acc) ==
+    /\ Applies(s, kind, e, d, o)
     /\ IF acc
        THEN /\ events < MaxEvents
             /\ LET pruned == {r \in rows : ~Expired(r.exp)}              \* sqlStore.prune()
@@ -115,15 +126,15 @@ Submit(s, kind, e, d, acc) ==
        ELSE /\ CountDefects => defects < MaxDefects
             /\ defects' = IF CountDefects THEN defects + 1 ELSE defects
             /\ UNCHANGED <<rows, ts, seeded, events, quiet, dirty>>
-    /\ Log([a |-> "Submit", s |-> s, kind |-> kind, e |-> e, d |-> d, res |-> IF acc THEN "accepted" ELSE "rejected"])
-    /\ UNCHANGED <<now, epoch, resets, cseed, cts, crows, poll>>
+    /\ Log([a |-> "Submit", s |-> s, kind |-> kind, e |-> e, d |-> d, o |-> o, res |-> IF acc THEN "accepted" ELSE "rejected"])
+    /\ UNCHANGED <<now, epoch, resets, outages, cseed, cts, crows, poll>>
 
 Tick ==
     /\ now < MaxTicks /\ events < MaxEvents
     /\ now' = now + 1 /\ events' = events + 1
     /\ Touch
     /\ Log([a |-> "Tick"])
-    /\ UNCHANGED <<epoch, seeded, ts, rows, defects, resets, cseed, cts, crows, poll>>
+    /\ UNCHANGED <<epoch, seeded, ts, rows, defects, resets, outages, cseed, cts, crows, poll>>
 
 \* a reset does not straddle the two statements of a running get (the process is gone)
 ServerReset ==
@@ -132,7 +143,7 @@ ServerReset ==
     /\ resets' = resets + 1 /\ events' = events + 1
     /\ Touch
     /\ Log([a |-> "ServerReset"])
-    /\ UNCHANGED <<now, defects, cseed, cts, crows, poll>>
+    /\ UNCHANGED <<now, defects, outages, cseed, cts, crows, poll>>
 
 (***************************************************************************)
 (* A client poll                                                           *)
@@ -146,7 +157,7 @@ PollFirst ==
                ELSE [phase |-> "mid", after |-> cts, rts |-> 0, rseed |-> 0, rows |-> Newer(cts)]
     /\ dirty' = FALSE
     /\ Log([a |-> "PollFirst"])
-    /\ UNCHANGED <<now, epoch, seeded, ts, rows, events, defects, resets, cseed, cts, crows, quiet>>
+    /\ UNCHANGED <<now, epoch, seeded, ts, rows, events, defects, resets, outages, cseed, cts, crows, quiet>>
 
 PollSecond ==
     /\ poll.phase = "mid"
@@ -154,14 +165,17 @@ PollSecond ==
                THEN [poll EXCEPT !.phase = "resp", !.rows = Newer(poll.after)]
                ELSE [poll EXCEPT !.phase = "resp", !.rts = ts, !.rseed = SrvSeed]
     /\ Log([a |-> "PollSecond"])
-    /\ UNCHANGED <<now, epoch, seeded, ts, rows, events, defects, resets, cseed, cts, crows, quiet, dirty>>
+    /\ UNCHANGED <<now, epoch, seeded, ts, rows, events, defects, resets, outages, cseed, cts, crows, quiet, dirty>>
 
 \* the client runs the same pipeline, at ITS time and on ITS table: a retraction never validates there because
 \* add() has just deleted the presentation it refers to
 ClientVerifies(r) == r.kind = "reg" /\ ~Expired(r.exp) /\ (r.d = "none" \/ r.d \notin Checks)
 
-ClientApply ==
+\* out: the client's verifier is unavailable while this response is applied
+ClientApply(out) ==
     /\ poll.phase = "resp"
+    /\ out => outages < MaxOutages
+    /\ outages' = IF out THEN outages + 1 ELSE outages
     /\ LET wiped == cseed # 0 /\ cseed # poll.rseed                       \* wipeOnSeedChange
            rows0 == IF wiped THEN {} ELSE crows
            cts0  == IF wiped THEN 0 ELSE cts
@@ -175,10 +189,13 @@ ClientApply ==
            dead  == {r \in new : Expired(r.exp)}
            last  == IF dead = {} THEN {{}}
                     ELSE {{x} : x \in dead} \cup (IF new \ dead # {} THEN {{}} ELSE {})
-           Mk(r) == [s |-> r.s, id |-> r.id, exp |-> r.exp, kind |-> r.kind, val |-> ClientVerifies(r)]
+           ok(r) == ~out /\ ClientVerifies(r)
+           \* val: the validated column; own: history, the client's own verifier has accepted this row
+           Mk(r) == [s |-> r.s, id |-> r.id, exp |-> r.exp, kind |-> r.kind, d |-> r.d, val |-> ok(r), own |-> ok(r)]
        IN IF new = {}
-          THEN /\ crows' = rows0 /\ cts' = cts0 /\ cseed' = seed0
-          ELSE /\ \E sv \in last : crows' = kept \cup {Mk(r) : r \in (new \ dead) \cup sv}
+          THEN /\ ~out /\ crows' = rows0 /\ cts' = cts0 /\ cseed' = seed0
+          ELSE /\ out => \E r \in new : ClientVerifies(r)               \* an outage nobody notices is no outage
+               /\ \E sv \in last : crows' = kept \cup {Mk(r) : r \in (new \ dead) \cup sv}
                /\ IF poll.rts = 0
                   THEN \* add(..., timestamp = 0) takes the SERVER branch: own increments, invented seed
                        /\ cts' = cts0 + Cardinality(new)
@@ -187,17 +204,34 @@ ClientApply ==
     /\ quiet' = IF dirty THEN 0 ELSE Min(quiet + 1, 2)
     /\ dirty' = FALSE
     /\ poll' = Idle
-    /\ Log([a |-> "ClientApply"])
+    /\ Log([a |-> "ClientApply", out |-> out])
     /\ UNCHANGED <<now, epoch, seeded, ts, rows, events, defects, resets>>
 
+\* clientRegistrationManager.validate(): allPresentations(validated = false), verifier on each, updateValidated
+Passes(c) == c.kind = "reg" /\ ~Expired(c.exp) /\ (c.d = "none" \/ c.d \notin Checks)
+Pending == \E c \in crows : ~c.val /\ Passes(c)
+ClientValidate ==
+    /\ Pending
+    /\ LET todo == {c \in crows : ~c.val}
+           pass == {c \in todo : Passes(c)}
+       IN IF ValidateMarksPassing
+          THEN crows' = (crows \ pass) \cup {[c EXCEPT !.val = TRUE, !.own = TRUE] : c \in pass}
+          ELSE \* a round that flags as many rows as passed, but not necessarily those
+               \E pick \in SUBSET todo :
+                    /\ Cardinality(pick) = Cardinality(pass)
+                    /\ crows' = (crows \ (pick \cup pass)) \cup {[c EXCEPT !.val = (c \in pick), !.own = (c \in pass)] : c \in pick \cup pass}
+    /\ Log([a |-> "ClientValidate"])
+    /\ UNCHANGED <<now, epoch, seeded, ts, rows, events, defects, resets, outages, cseed, cts, poll, quiet, dirty>>
+
 Next ==
-    \/ \E s \in Subjects, k \in Kinds, e \in ExpClasses, d \in {"none"} \cup Defects :
-            Submit(s, k, e, d, Pipeline(s, k, e, d))
+    \/ \E s \in Subjects, k \in Kinds, e \in ExpClasses, d \in {"none"} \cup Defects, o \in CredOrders :
+            Submit(s, k, e, d, o, Pipeline(s, k, e, d))      \* the verdict does not look at the order
     \/ Tick \/ ServerReset
-    \/ PollFirst \/ PollSecond \/ ClientApply
+    \/ PollFirst \/ PollSecond \/ (\E out \in BOOLEAN : ClientApply(out))
+    \/ ClientValidate
 
 Spec == Init /\ [][Next]_vars
-FairSpec == Spec /\ WF_vars(PollFirst \/ PollSecond \/ ClientApply)
+FairSpec == Spec /\ WF_vars(PollFirst \/ PollSecond \/ ClientApply(FALSE)) /\ WF_vars(ClientValidate)
 
 (***************************************************************************)
 (* Properties (C16)                                                        *)
@@ -218,13 +252,14 @@ TimestampsStrictlyIncrease ==
 RetractionOnlyBySigner == [][\A r \in rows' \ rows : r.kind = "ret" => \E q \in rows : q.s = r.s]_vars
 
 SearchResult == {c \in crows : (SearchValidatedOnly => c.val) /\ (SearchUnexpiredOnly => ~Expired(c.exp))}
-\* val is set by nothing but the client's own verifier (ClientVerifies)
-SearchSound == \A c \in SearchResult : c.val /\ ~Expired(c.exp)
+\* Search returns only what the client's own verifier has accepted (at apply time or in a validation round)
+SearchSound == \A c \in SearchResult : c.own /\ ~Expired(c.exp)
 
 Live(tbl) == {<<r.s, r.id>> : r \in {x \in tbl : x.kind = "reg" /\ ~Expired(x.exp)}}
 Synced == Live(crows) = Live(rows) /\ Live(SearchResult) = Live(rows)
-\* safety form of convergence: two complete polls without a server event in between or during them
-Converged == quiet >= 2 => Synced
+\* safety form of convergence: two complete polls without a server event in between or during them, and no
+\* validation round outstanding
+Converged == (quiet >= 2 /\ ~Pending) => Synced
 \* liveness form: the server events are bounded, polls are fair
 Converges == <>[]Synced
 =============================================================================
